@@ -39,6 +39,12 @@ pub struct PropRun {
     pub summary: Summary,
 }
 
+/// C20 says the counter never underflows: with overflow checks on, an underflow of the send buffer counter is a panic in packet_sender.rs.
+fn c20_underflow(p: &str, ctx: &str) -> Violation {
+    if p.contains("subtract with overflow") && p.contains("packet_sender.rs") { Violation { clause: "C20.underflow".into(), sig: "C20.underflow".into(), detail: format!("{}: the send buffer counter underflowed: {}", ctx, p) } }
+    else { Violation { clause: "C20.other-panic".into(), sig: "C20.other-panic:not-a-C20-verdict".into(), detail: String::new() } }
+}
+
 fn threads() -> usize {
     std::env::var("VERIF_THREADS").ok().and_then(|s| s.parse().ok()).unwrap_or_else(|| std::thread::available_parallelism().map(|n| n.get()).unwrap_or(8)).max(1)
 }
@@ -82,6 +88,7 @@ fn run_check(property: &str, tier: &str) -> i32 {
     let mut ex = Explorer::new(ctx.threads, deadline, known_matcher(&known));
     ex.sample_every = 0;
     if property == "C03" { ex.panic_to_violation = Some(c03::panic_violation); }
+    if property == "C20" { ex.panic_to_violation = Some(c20_underflow); }
     install_panic_hook();
     start_watchdog(&ex, property.to_string());
     let mut scs = pr.scenarios;
